@@ -1395,6 +1395,7 @@ func (p *balloons) setConfig(bpoptions *BalloonsOptions) error {
 	p.reservedBalloonDef = reservedBalloonDef
 	p.defaultBalloonDef = defaultBalloonDef
 	p.balloons = []*Balloon{}
+	p.memAllocator.Reset()
 	p.freeCpus = p.allowed.Clone()
 	p.bpoptions = bpoptions
 
